@@ -233,6 +233,19 @@ def run_linear(rng, case, res):
         nfree = int((~g['cmask']).sum()) if g['ckind'] != 'none' else g['n']
         if nfree and S.res.counters.get('Matrix.solve/calls', 0) > before:
             res.add('distinct', dhash(desc))
+        # history on the SAME matrix object: further solves with the constraint pattern moved to other positions (same count),
+        # then the original pattern again; every call passes through the recording post-conditions (residual, constraints)
+        if g['ckind'] != 'none' and 0 < g['cmask'].sum() < g['n']:
+            g2 = dict(g)
+            for rep in range(2):
+                perm = rng.permutation(g['n'])
+                g2['cmask'] = g['cmask'][perm]
+                if (g2['cmask'] == g['cmask']).all():
+                    continue
+                g2['cvals'] = g['cvals'][perm] if g.get('cvals') is not None else None
+                res.count('L/history/moved-constraints')
+                attempt(lambda: M.solve(g['rhs'], **linear_call_args(g2, g['lhs0'])))
+            attempt(lambda: M.solve(g['rhs'], **kwa))
         # second solve from another start vector: for a linear problem the answer may not depend on it
         if g['ckind'] == 'row' and (g['rmask'] is None or g['rmask'].sum() != g['cmask'].sum()):
             return
